@@ -34,10 +34,10 @@ def block_of(n):
 
 def cases(ctx):
     rng = ctx.rng
-    for _ in range(ctx.per_shard(ctx.pick(3000, 60000))):
+    for _ in range(ctx.per_shard(ctx.pick(3000, 1200000))):
         yield {"kind": "text", "seed": rng.getrandbits(32), "salt": rng.choice(["saltForTest", "", "x", "ü", "s%d" % rng.getrandbits(30)])}
-    yield {"kind": "salts", "seed": rng.getrandbits(32), "n": ctx.per_shard(ctx.pick(80000, 1500000))}
-    for _ in range(ctx.per_shard(ctx.pick(200, 4000))):
+    yield {"kind": "salts", "seed": rng.getrandbits(32), "n": ctx.per_shard(ctx.pick(80000, 20000000))}
+    for _ in range(ctx.per_shard(ctx.pick(200, 40000))):
         yield {"kind": "extreme", "seed": rng.getrandbits(32)}
     # last: after this process has built thousands of anonymizers with other salts, the replacement for
     # (salt, number) must still be what a pristine interpreter computes
